@@ -85,6 +85,52 @@ GROUP = {'REMOVE_FILE': 'REMOVE', 'REMOVE_DIR': 'REMOVE', 'REMOVE_TREE': 'REMOVE
 from .value import canon, subst as _vsubst  # noqa: E402
 
 
+# `OpenOptions::new().write(true).create(true).truncate(true).open(p)` is how std defines `File::create(p)`,
+# `..write(true).create_new(true).open(p)` is `File::create_new(p)` and `..read(true).open(p)` is `File::open(p)`.
+# open_mode reads the builder chain (constant flags on `OpenOptions::new()` / `File::options()`, the last setting of a flag
+# wins) and names the std constructor it equals — anything else (append, a write-open that keeps the old contents, a flag
+# that is not a constant) stays an opaque OPEN.  (Moved here from C01_helpers after seed round 5: C05's repaired twin.)
+OO_FLAGS = ('read', 'write', 'append', 'truncate', 'create', 'create_new')
+OO_NEW = ('std::fs::OpenOptions::new', 'std::fs::File::options')
+OPEN_AS = {'create': 'std::fs::File::create', 'create_new': 'std::fs::File::create_new', 'read': 'std::fs::File::open'}
+
+
+def open_mode(builder):
+    flags = {}
+    v = builder
+    for _ in range(16):
+        while isinstance(v, tuple) and v and v[0] in ('unwrap', 'updated') and len(v) >= 2 and isinstance(v[1], tuple):
+            v = v[1]
+        if not (isinstance(v, tuple) and len(v) == 4 and v[0] == 'call'):
+            return None
+        if v[1] in OO_NEW and not v[2]:
+            break
+        name = v[1].rsplit('::', 1)
+        if len(name) != 2 or name[0] != 'std::fs::OpenOptions' or name[1] not in OO_FLAGS or len(v[2]) != 2:
+            return None
+        val = v[2][1]
+        if not (isinstance(val, tuple) and len(val) == 2 and val[0] == 'const' and isinstance(val[1], bool)):
+            return None
+        flags.setdefault(name[1], val[1])
+        v = v[2][0]
+    else:
+        return None
+    on = {k for k, b in flags.items() if b}
+    if on == {'read'}:
+        return 'read'
+    if on == {'write', 'create', 'truncate'}:
+        return 'create'
+    if 'create_new' in on and 'write' in on and 'append' not in on and 'read' not in on:
+        return 'create_new'
+    return None
+
+
+def effect_name(e):
+    """name of the std operation an effect stands for: the call's own name, or — for an `OpenOptions::open` whose builder
+    chain equals a std constructor — that constructor"""
+    return getattr(e, 'as_name', None) or (e.call.name if e.call is not None else None)
+
+
 def eff_key(e):
     return (GROUP.get(e.kind, e.kind), canon(e.path) if e.path is not None else None, e.forall is not None,
             e.call.name if (e.call is not None and e.kind not in GROUP) else None)
@@ -114,7 +160,7 @@ class Link:
 
 
 class Eff:
-    __slots__ = ('kind', 'path', 'call', 'chain', 'must', 'forall', 'args', 'level', 'level_bb', 'mapping', 'implied')
+    __slots__ = ('kind', 'path', 'call', 'chain', 'must', 'forall', 'args', 'level', 'level_bb', 'mapping', 'implied', 'as_name')
 
     def __init__(self, kind, path, call, chain, must, forall=None, args=None):
         self.kind = kind
@@ -128,6 +174,7 @@ class Eff:
         self.level_bb = None    # block of the call (in that level's function) it was expanded from
         self.implied = ()       # payloads that exist whenever the effect runs (closure run by Option/Result combinators)
         self.mapping = None     # parameter bindings of the function containing `call` (values in entry terms)
+        self.as_name = None     # std constructor an `OpenOptions::open` equals (see open_mode), else None
 
     def where(self):
         return self.call.where() if self.call else (self.chain[-1].where() if self.chain else '-')
@@ -543,6 +590,21 @@ class Effects:
         if c.decl and c.decl.startswith('std::iter::') and self._expand_iter(fn, c, forall, mode, mapping, chain, stack, out):
             return
         ve = vocab_lookup(c, self.vocab)
+        if ve and ve[0] == 'OPEN' and c.is_('std::fs::OpenOptions::open') and len(c.args) == 2:
+            om = open_mode(self.slicer.operand(fn, c.args[0]))
+            if om is not None:
+                pth = self.subst(self.slicer.operand(fn, c.args[1]), mapping)
+                args = (pth,)
+                if om in ('create', 'create_new'):
+                    data = self._written_to(fn, c)
+                    if data is not None:
+                        args = args + (self.subst(data, mapping),)
+                fa = self.subst(forall, mapping) if forall is not None else None
+                ef = Eff('READ' if om == 'read' else 'WRITE', pth, c, chain, mode == 'must', fa, args)
+                ef.mapping = mapping
+                ef.as_name = OPEN_AS[om]
+                out.append(ef)
+                return
         if ve:
             kind, pidx = ve
             args = tuple(self.subst(self.slicer.operand(fn, a), mapping) for a in c.args)
